@@ -123,43 +123,60 @@ def _wit(t, env, fuel):
     elif k == "ref" and t["n"] == "Array" and len(t["as"]) == 1 and t["n"] not in env:
         yield from _wit({"k": "array", "e": t["as"][0]}, env, fuel)
     else:
-        for sh in shapes(t, env, fuel):
-            if sh[0] == "non":
-                if sh[1] is not t:
-                    yield from _wit(sh[1], env, fuel - 1)
-                continue
-            ms, idx = sh[1], sh[2]
-            # members with the same key (tag repeated by an intersection) must agree: take the first
-            req, opt, keys = [], [], set()
-            for m in ms:
-                if m["key"] in keys:
-                    continue
-                keys.add(m["key"])
-                (opt if m["opt"] else req).append(m)
-            reqvals = [list(itertools.islice(_wit(m["ty"], env, fuel - 1), 2)) for m in req]
-            if not all(reqvals):
-                continue
-            optvals = [list(itertools.islice(_wit(m["ty"], env, fuel - 1), 1)) for m in opt]
-            base = {m["key"]: v[0] for m, v in zip(req, reqvals)}
-            opt_present = [i for i, v in enumerate(optvals) if v][:3]
-            for r in range(len(opt_present) + 1):
-                for combo in itertools.combinations(opt_present, r):
-                    o = dict(base)
-                    for i in combo:
-                        o[opt[i]["key"]] = optvals[i][0]
-                    yield o
-            for i, v in enumerate(reqvals):
-                if len(v) > 1:
-                    o = dict(base)
-                    o[req[i]["key"]] = v[1]
-                    yield o
-            for x in idx:
-                kws = key_witnesses(x["kty"], env, fuel)
-                vs = list(itertools.islice(_wit(x["vty"], env, fuel - 1), 1))
-                if kws and vs:
-                    o = dict(base)
-                    o[kws[0]] = vs[0]
-                    yield o
+        # one generator per alternative of the (normalised) type, drawn from in turn, so that the first few
+        # witnesses already cover every alternative
+        gens = [_wit_shape(sh, t, env, fuel) for sh in shapes(t, env, fuel)]
+        while gens:
+            for g in list(gens):
+                try:
+                    yield next(g)
+                except StopIteration:
+                    gens.remove(g)
+
+
+def _wit_shape(sh, t, env, fuel):
+    if sh[0] == "non":
+        if sh[1] is not t:
+            yield from _wit(sh[1], env, fuel - 1)
+        return
+    ms, idx = sh[1], sh[2]
+    # members with the same key (tag repeated by an intersection) must agree: take the first
+    req, opt, keys = [], [], set()
+    for m in ms:
+        if m["key"] in keys:
+            continue
+        keys.add(m["key"])
+        (opt if m["opt"] else req).append(m)
+    reqvals = [list(itertools.islice(_wit(m["ty"], env, fuel - 1), 2)) for m in req]
+    if not all(reqvals):
+        return
+    optvals = [list(itertools.islice(_wit(m["ty"], env, fuel - 1), 3)) for m in opt]
+    base = {m["key"]: v[0] for m, v in zip(req, reqvals)}
+    opt_present = [i for i, v in enumerate(optvals) if v][:3]
+    for r in range(len(opt_present) + 1):
+        for combo in itertools.combinations(opt_present, r):
+            o = dict(base)
+            for i in combo:
+                o[opt[i]["key"]] = optvals[i][0]
+            yield o
+    # the other alternatives of an optional member's type (e.g. the `null` of `T | null`)
+    for i in opt_present:
+        for alt in optvals[i][1:]:
+            o = dict(base)
+            o[opt[i]["key"]] = alt
+            yield o
+    for i, v in enumerate(reqvals):
+        if len(v) > 1:
+            o = dict(base)
+            o[req[i]["key"]] = v[1]
+            yield o
+    for x in idx:
+        kws = key_witnesses(x["kty"], env, fuel)
+        vs = list(itertools.islice(_wit(x["vty"], env, fuel - 1), 1))
+        if kws and vs:
+            o = dict(base)
+            o[kws[0]] = vs[0]
+            yield o
 
 
 def near_misses(sample, root_t, env):
